@@ -92,7 +92,8 @@ def bootstrap_ci(
         # Flatten the metric shape to a vector
         nb_samples = theta.shape[0]
         metric_shape = theta.shape[1:]
-        theta = np.reshape(theta, (nb_samples, -1))
+        # Floating point, so that the powers below cannot overflow for integer metrics.
+        theta = np.reshape(theta, (nb_samples, -1)).astype(float)
         theta_hat = np.reshape(theta_hat, (1, -1))
         metric_size = theta.shape[-1]
 
